@@ -3,7 +3,7 @@ use crate::events::CircuitBreakerEvent;
 #[cfg(feature = "metrics")]
 use metrics::{counter, gauge, histogram};
 use std::collections::VecDeque;
-use std::sync::atomic::{AtomicU8, Ordering};
+use std::sync::atomic::{AtomicU8, AtomicUsize, Ordering};
 use std::time::{Duration, Instant};
 
 /// Represents the state of the circuit breaker.
@@ -77,6 +77,18 @@ pub(crate) struct Circuit {
     count_window: VecDeque<(bool, bool)>,
     // Time-based window tracking
     call_records: VecDeque<CallRecord>,
+    /// Trial calls admitted in half-open whose outcome has not been recorded yet.
+    half_open_in_flight: std::sync::Arc<AtomicUsize>,
+}
+
+/// Occupies one of the `permitted_calls_in_half_open` trial slots until it is dropped:
+/// either when the call's outcome is recorded, or when the call is cancelled or panics.
+pub(crate) struct TrialPermit(std::sync::Arc<AtomicUsize>);
+
+impl Drop for TrialPermit {
+    fn drop(&mut self) {
+        self.0.fetch_sub(1, Ordering::AcqRel);
+    }
 }
 
 impl Default for Circuit {
@@ -104,6 +116,18 @@ impl Circuit {
             slow_call_count: 0,
             count_window: VecDeque::new(),
             call_records: VecDeque::new(),
+            half_open_in_flight: std::sync::Arc::new(AtomicUsize::new(0)),
+        }
+    }
+
+    /// Called right after `try_acquire` admitted a call: in half-open the call takes a
+    /// trial slot, which it holds until the returned permit is dropped.
+    pub(crate) fn begin_trial(&self) -> Option<TrialPermit> {
+        if self.state == CircuitState::HalfOpen {
+            self.half_open_in_flight.fetch_add(1, Ordering::AcqRel);
+            Some(TrialPermit(std::sync::Arc::clone(&self.half_open_in_flight)))
+        } else {
+            None
         }
     }
 
@@ -401,8 +425,13 @@ impl Circuit {
                 }
             }
             CircuitState::HalfOpen => {
-                let permitted =
-                    self.success_count + self.failure_count < config.permitted_calls_in_half_open;
+                // Trial calls that completed plus those still in flight
+                let completed = match config.sliding_window_type {
+                    SlidingWindowType::CountBased => self.success_count + self.failure_count,
+                    SlidingWindowType::TimeBased => self.call_records.len(),
+                };
+                let in_flight = self.half_open_in_flight.load(Ordering::Acquire);
+                let permitted = completed + in_flight < config.permitted_calls_in_half_open;
                 if permitted {
                     config
                         .event_listeners
